@@ -110,7 +110,11 @@ func (e *Exec) makeClosure(s *State, x *ssa.MakeClosure) Value {
 	for _, b := range x.Bindings {
 		cl.Bindings = append(cl.Bindings, e.val(s, b))
 		if a, ok := b.(*ssa.Alloc); ok {
-			// from here on the closure (possibly run by other code or another goroutine) can reach the cell
+			// from here on the closure (possibly run by other code or another goroutine) can reach the cell;
+			// a closure that only ever reads it leaves this activation the only writer
+			if bi := indexOfBinding(x, b); bi >= 0 && freeVarReadOnly(cl.Fn, bi, 0) {
+				continue
+			}
 			var keep []privCell
 			for _, pc := range s.priv {
 				if pc.alloc != a {
@@ -358,6 +362,20 @@ func (e *Exec) applyContract(s *State, ins ssa.Instruction, fc *FuncContract, si
 	}
 	cname := shortFuncName(fc.Key)
 	sub := e.calleeCtxExec(fc)
+	// the callee's ghost variables: some value exists for which its postconditions hold
+	for _, g := range fc.Ghosts {
+		f := strings.Fields(g)
+		if len(f) == 3 && f[0] == "var" {
+			func() {
+				defer func() { recover() }()
+				ctx := &SpecCtx{e: e, st: s, old: s, vars: map[string]specVar{}, pkg: sub.pkg}
+				t := ctx.resolveTypeName(f[2])
+				if _, isArr := t.(*ghostArrT); !isArr {
+					vars[f[1]] = specVar{e.freshValue(s, "gv_"+f[1], t), t}
+				}
+			}()
+		}
+	}
 	if e.quiet == 0 {
 		e.counters["call:"+cname]++
 	}
@@ -463,7 +481,9 @@ func (cc calleeCtx) evalWith(e *Exec, c *Clause, st, old *State, vars map[string
 	savedFn, savedParams, savedRes := e.fn, e.params, e.results
 	e.fn, e.params, e.results = nil, map[string]Value{}, nil
 	defer func() { e.fn, e.params, e.results = savedFn, savedParams, savedRes }()
+	oldPC := old.pc
 	v, _ := ctx.eval(c.Expr)
+	carryOldFacts(st, old, oldPC)
 	return v.(*Node)
 }
 
@@ -474,6 +494,11 @@ func (e *Exec) havocTarget(s, pre *State, m string, vars map[string]specVar, fc 
 	switch {
 	case strings.HasPrefix(m, "H:") || strings.HasPrefix(m, "A:") || strings.HasPrefix(m, "G:") || strings.HasPrefix(m, "M:"):
 		sortS, ok := e.heapSorts[m]
+		if !ok && strings.HasPrefix(m, "M:") {
+			// a whole map type: every heap of the family
+			e.havocFamily(s, m+".", "mod_")
+			return
+		}
 		if !ok {
 			// not touched yet in this activation: it still has to be havocked, otherwise later reads
 			// would see the pre-call contents
@@ -1130,4 +1155,57 @@ func reachableFrom(b *ssa.BasicBlock) map[*ssa.BasicBlock]bool {
 		stack = append(stack, x.Succs...)
 	}
 	return seen
+}
+
+func indexOfBinding(x *ssa.MakeClosure, b ssa.Value) int {
+	for i, y := range x.Bindings {
+		if y == b {
+			return i
+		}
+	}
+	return -1
+}
+
+// freeVarReadOnly: the closure (and closures it creates) never stores through free variable #i and
+// never lets its address escape other than into further read-only closures.
+func freeVarReadOnly(fn *ssa.Function, i int, depth int) bool {
+	if depth > 4 || i >= len(fn.FreeVars) || fn.Blocks == nil {
+		return false
+	}
+	var okUse func(v ssa.Value, d int) bool
+	okUse = func(v ssa.Value, d int) bool {
+		refs := v.Referrers()
+		if refs == nil {
+			return false
+		}
+		for _, r := range *refs {
+			switch u := r.(type) {
+			case *ssa.UnOp:
+				if u.Op != token.MUL {
+					return false
+				}
+			case *ssa.FieldAddr:
+				if d > 4 || !okUse(u, d+1) {
+					return false
+				}
+			case *ssa.IndexAddr:
+				if d > 4 || !okUse(u, d+1) {
+					return false
+				}
+			case *ssa.MakeClosure:
+				for j, b := range u.Bindings {
+					if b == v {
+						if f, ok := u.Fn.(*ssa.Function); !ok || !freeVarReadOnly(f, j, depth+1) {
+							return false
+						}
+					}
+				}
+			case *ssa.DebugRef:
+			default:
+				return false
+			}
+		}
+		return true
+	}
+	return okUse(fn.FreeVars[i], 0)
 }
